@@ -3,7 +3,7 @@ use std::collections::HashMap;
 use crate::{
     data::{DataElement, DataIterator},
     interpreter_error::{InterpreterError, OutOfMemoryError, TracedInterpreterError},
-    program_lines::ProgramLines,
+    program_lines::{tokens_to_strings, ProgramLines},
     symbol::Symbol,
     syntax_error::SyntaxError,
     tokenizer::Token,
@@ -427,14 +427,13 @@ impl Program {
         if tokens.is_empty() {
             return vec![];
         }
-        let mut string_tokens = vec![];
+        // Show the line exactly as LIST does.
+        let string_tokens = tokens_to_strings(tokens);
         let mut spaces_before_caret = 0;
-        for (i, token) in tokens.iter().enumerate() {
-            let string_token = token.to_string();
+        for (i, string_token) in string_tokens.iter().enumerate() {
             if i < location.token_index {
                 spaces_before_caret += string_token.len() + 1;
             }
-            string_tokens.push(string_token);
         }
         vec![
             string_tokens.join(" "),
